@@ -51,6 +51,8 @@ PROPS = [
  ("fix: a patch request whose regenerated MPD is an error text", ["C08", "C11"]),
  ("fix: a stop time before the start time combined with periods crashed", ["C08", "C06"]),
  ("fix: creating an ingest session with a malformed livesim URL", ["C08", "C16"]),
+ ("fix: a licence request whose URL does not end with /eccp.json", ["C10", "C08"]),
+ ("fix: an ingest session with a duration sent one media segment too many", ["C16"]),
 ]
 
 FINDINGS = json.load(open('/verif/known_findings_manual.json'))['findings']
